@@ -112,7 +112,7 @@ func TestC01Rapid(t *testing.T) {
 			o.ElNames = xgen.ElNames2
 		}
 		shape := xgen.Shape(rt, &o)
-		unicodeNames := !prefixed && shape != "doc:many-attributes" && rapid.IntRange(0, 9).Draw(rt, "unicode-names") == 0
+		unicodeNames := !prefixed && shape != "doc:many-attributes" && rapid.IntRange(0, 9).Draw(rt, "unicode-names") == 9
 		if unicodeNames {
 			o.ElNames = []string{"é", "中文", "имя"} // multi-byte names: the scanner counts bytes, the grammar counts characters
 			o.AtNames = []string{"ключ", "x"}
